@@ -77,3 +77,122 @@ def forall_uf(vars_, body, pats=()):
     if not vars_:
         return b
     return z3.ForAll(list(vars_), b, patterns=ps) if ps else z3.ForAll(list(vars_), b)
+
+
+def decl_ids(formulas):
+    """ids of all function symbols (registered recursive functions and datatype-independent uninterpreted ones) in the formulas"""
+    out = set()
+    stack = list(formulas)
+    seen = set()
+    while stack:
+        e = stack.pop()
+        i = e.get_id()
+        if i in seen:
+            continue
+        seen.add(i)
+        if z3.is_quantifier(e):
+            stack.append(e.body())
+            continue
+        if z3.is_app(e):
+            d = e.decl()
+            if d.get_id() in DEFS:
+                out.add(d.get_id())
+            stack.extend(e.children())
+    return out
+
+
+def lemma_relevant(lemma, base_ids):
+    """a lemma of the library is useful only if every recursive function in its pattern(s) occurs in the query"""
+    vars_, body, pats = lemma
+    ids = decl_ids(list(pats) if pats else [body])
+    return bool(ids) and ids <= base_ids
+
+
+def _match(pat, term, var_ids, binding):
+    """first-order matching of a lemma pattern against a ground term"""
+    pid = pat.get_id()
+    if pid in var_ids:
+        if pid in binding:
+            return binding[pid][1].eq(term)
+        if not pat.sort().eq(term.sort()):
+            return False
+        binding[pid] = (pat, term)
+        return True
+    if not (z3.is_app(pat) and z3.is_app(term)):
+        return pat.eq(term)
+    if not pat.decl().eq(term.decl()) or pat.num_args() != term.num_args():
+        return False
+    return all(_match(p, t, var_ids, binding) for p, t in zip(pat.children(), term.children()))
+
+
+def _subterms(formulas):
+    out = []
+    seen = set()
+    stack = list(formulas)
+    while stack:
+        e = stack.pop()
+        i = e.get_id()
+        if i in seen:
+            continue
+        seen.add(i)
+        if z3.is_quantifier(e):
+            continue
+        if z3.is_app(e):
+            out.append(e)
+            stack.extend(e.children())
+    return out
+
+
+def ground_instances(lemmas, formulas, rounds=2, cap=400):
+    """E-matching by hand: instantiate each lemma (vars, body, patterns) on the ground terms of the query that match its
+    pattern; the result is quantifier-free (each instance is a consequence of the lemma)"""
+    insts = []
+    seen = set()
+    cur = list(formulas)
+    for _ in range(rounds):
+        new = []
+        terms = _subterms(cur + insts)
+        for vars_, body, pats in lemmas:
+            if not pats or not vars_:
+                if not vars_ and body.get_id() not in seen:
+                    seen.add(body.get_id())
+                    new.append(body)
+                continue
+            var_ids = {v.get_id() for v in vars_}
+            pat = pats[0]
+            head = pat.decl() if z3.is_app(pat) else None
+            for t in terms:
+                if head is None or not z3.is_app(t) or not t.decl().eq(head):
+                    continue
+                b = {}
+                if _match(pat, t, var_ids, b) and len(b) == len(var_ids):
+                    inst = z3.substitute(body, *[(v, b[v.get_id()][1]) for v in vars_])
+                    if inst.get_id() not in seen:
+                        seen.add(inst.get_id())
+                        new.append(inst)
+                        if len(insts) + len(new) >= cap:
+                            break
+            if len(insts) + len(new) >= cap:
+                break
+        if not new:
+            break
+        insts.extend(new)
+    return insts
+
+
+def evaluate(formulas, rounds=3):
+    """symbolic evaluation by rewriting: an application of a recursive function whose unfolded body simplifies to a term
+    without a top-level conditional (its arguments decide the case) is replaced by that term; everything is simplified.
+    Sound: every rewrite is an instance of the function's definition."""
+    cur = [z3.simplify(f) for f in formulas]
+    for _ in range(rounds):
+        rew = []
+        for app in ground_apps(cur, set()):
+            decl, params, body, _uf = DEFS[app.decl().get_id()]
+            sb = z3.simplify(z3.substitute(body, *zip(params, app.children())))
+            if not (z3.is_app(sb) and sb.decl().kind() == z3.Z3_OP_ITE):
+                rew.append((app, sb))
+        if not rew:
+            break
+        cur = [z3.simplify(z3.substitute(f, *rew)) for f in cur]
+    return cur
